@@ -19,7 +19,7 @@ RULE = (
     "mode 'centres': world {equator,npole,straddle|+spole,generic} x N{2,3,4} x every permutation of the centre "
     "list x layout {single object per centre, several objects incl. near-border, objects 3.5e-7 ... 5e-9 rad from a border, outermost objects with weight 0 / -1, centre k attracts nothing "
     "for each k} x weighted; mode 'ids': N{2,3,4} x scrambled id columns x weighted; mode 'create': patch_num "
-    "{2,3} on clumped data; from_random with given centres and a patch_num that must be ignored; 'refuse': id sets {0..N-1} vs every proper subset/superset of size N-1,N+1 and "
+    "{2,3} on clumped data; from_random with given centres and a patch_num that must be ignored; a patch of 2^20+5 records written in three chunks with the farthest records last; 'refuse': id sets {0..N-1} vs every proper subset/superset of size N-1,N+1 and "
     "centre k displaced by {0, 0.4, 1.1, 3} x the larger radius. Oracle: num_records/sum_weights from the stored "
     "records, Vincenty separation <= radius, centres[i] == given centre i (also after the caller has modified its own centre array in place), nearest-centre partition. "
     "Non-trivial: N>=3 with a non-identity permutation, an empty centre, or a refusal case."
@@ -53,6 +53,8 @@ def cases(tier, seed):
     for world, N in itertools.product(ws, (2, 3)):
         out.append(dict(part="centres", world=world, N=N, perm=list(range(N)), layout="spread", weighted="zero-outer",
                         seed=seed))
+    # a patch with more records than any internal block size (2^20), the farthest records at the end of the input
+    out.append(dict(part="bigpatch", n=2**20 + 5, seed=seed))
     # random catalogs with given centres and a (to be ignored) patch_num
     for N, cs in itertools.product((1, 2), (3, None)):
         out.append(dict(part="random-centres", N=N, chunksize=cs, seed=seed))
@@ -192,6 +194,40 @@ def run_centres(case):
     nontrivial = empty or (N >= 3 and perm != sorted(perm)) or case["layout"] == "spread"
     tag = tag  # (chunked/reversed inputs share the signatures of the unchunked ones)
     return v, nontrivial
+
+
+def run_bigpatch(case):
+    from yaw import Catalog
+
+    n = case["n"]
+    i = np.arange(n, dtype=float)
+    ra = 20.0 + 0.5 * ((i * 0.6180339887) % 1.0)
+    dec = 1.0 + 0.5 * ((i * 0.4142135623) % 1.0)
+    ra[-5:] += 3.0  # outliers arriving last
+    pid = np.zeros(n, dtype="i8")
+    ra = np.concatenate([ra, [40.0, 40.2, 40.1]])
+    dec = np.concatenate([dec, [0.0, 0.1, 0.3]])
+    pid = np.concatenate([pid, [1, 1, 1]])
+    d = runner.fresh_dir("c12b")
+    v = []
+    try:
+        # three chunks: the outliers arrive with the last one and end up at the end of the patch's data file
+        cat = yawx.make_catalog(d + "/cat", ra, dec, pid=pid, chunksize=2**19)
+        for tag, c in (("", cat), ("/reopened", Catalog(d + "/cat"))):
+            for p, patch in c.items():
+                data = patch.load_data()
+                cen = patch.meta.center
+                s = np.asarray(ref.sep(data["ra"], data["dec"], cen.ra[0], cen.dec[0])).astype(float)
+                r = float(patch.meta.radius.data[0])
+                if patch.meta.num_records != len(data):
+                    v.append(viol("C12/ids/num_records", f"patch {p}: {patch.meta.num_records} != {len(data)}"))
+                if s.max() > r + 1e-12:
+                    v.append(viol(f"C12/ids/radius/many-records{tag}",
+                                  f"patch {p} with {len(data)} records: {int((s > r + 1e-12).sum())} records lie outside the "
+                                  f"stored radius {r!r} (farthest {s.max()!r})"))
+    except Exception as e:
+        v.append(viol(f"C12/bigpatch/exception:{type(e).__name__}", yawx.exc_name(e)))
+    return v, True
 
 
 def run_random_centres(case):
@@ -361,7 +397,7 @@ def run_refuse_single(case):
 
 def run_case(case):
     fn = {"centres": run_centres, "refuse-single": run_refuse_single, "ids": run_ids, "create": run_create, "refuse-ids": run_refuse_ids,
-          "refuse-shift": run_refuse_shift, "random-centres": run_random_centres}[case["part"]]
+          "refuse-shift": run_refuse_shift, "random-centres": run_random_centres, "bigpatch": run_bigpatch}[case["part"]]
     viols, nontrivial = fn(case)
     res = dict(nontrivial=bool(nontrivial), key=case)
     if viols:
